@@ -747,11 +747,14 @@ func runC7(p *Prog, o *obls, la *lockAnalysis) {
 			continue // a lock()/unlock() helper: its callers are analysed as performing the operation
 		}
 		key := funcKey(fn) + ":balance"
-		if len(li.leaks) == 0 {
-			o.ok("C7", key, p.Pos(fn.Pos()), fmt.Sprintf("%d acquisition(s), each released (or its release deferred) on every path to a return", li.nAcq))
+		var bad []string
+		// the converse: an Unlock reached after another Unlock of the same mutex with no Lock in between (a path that
+		// skips the re-acquisition, an explicit unlock before the deferred one) is a fatal runtime error
+		bad = append(bad, doubleUnlocks(p, fn, li, la.prunedE)...)
+		if len(li.leaks) == 0 && len(bad) == 0 {
+			o.ok("C7", key, p.Pos(fn.Pos()), fmt.Sprintf("%d acquisition(s), each released (or its release deferred) on every path to a return; no unlock follows an unlock without a lock in between", li.nAcq))
 			continue
 		}
-		var bad []string
 		for _, l := range li.leaks {
 			if !leakPathFeasible(p, l) {
 				continue // every unlock-free path from the acquisition to this return contradicts itself (`if c {Lock}` … `if c {Unlock}`)
@@ -765,6 +768,129 @@ func runC7(p *Prog, o *obls, la *lockAnalysis) {
 		sort.Strings(bad)
 		o.bad("C7", key, p.Pos(fn.Pos()), strings.Join(dedupe(bad), "; "))
 	}
+}
+
+// doubleUnlocks: feasible paths from one Unlock/RUnlock of a mutex to another (or to the function exit that runs a
+// deferred one) without a Lock/RLock of it in between.
+func doubleUnlocks(p *Prog, fn *ssa.Function, li *lockInfo, pruned map[[2]*ssa.BasicBlock]bool) []string {
+	type ev struct {
+		in   ssa.Instruction
+		id   string
+		kind string
+	}
+	var unlocks []ev
+	deferAt := map[string]*ssa.Defer{}
+	instrsOf(fn, func(in ssa.Instruction) {
+		switch x := in.(type) {
+		case *ssa.Call:
+			if op, ok := lockOpOf(&x.Call); ok && (op.kind == "Unlock" || op.kind == "RUnlock") {
+				unlocks = append(unlocks, ev{in, op.id, op.kind})
+			}
+		case *ssa.Defer:
+			if op, ok := lockOpOf(&x.Call); ok && (op.kind == "Unlock" || op.kind == "RUnlock") {
+				deferAt[op.id] = x
+			}
+		}
+	})
+	var out []string
+	for _, u := range unlocks {
+		isLock := func(in ssa.Instruction) bool {
+			if c, ok := in.(*ssa.Call); ok {
+				if op, ok := lockOpOf(&c.Call); ok && op.id == u.id && (op.kind == "Lock" || op.kind == "RLock") {
+					return true
+				}
+			}
+			return false
+		}
+		isTarget := func(in ssa.Instruction) bool {
+			if in == u.in {
+				return false
+			}
+			if c, ok := in.(*ssa.Call); ok {
+				if op, ok := lockOpOf(&c.Call); ok && op.id == u.id && (op.kind == "Unlock" || op.kind == "RUnlock") {
+					return true
+				}
+			}
+			if _, ok := in.(*ssa.RunDefers); ok {
+				if d := deferAt[u.id]; d != nil && (d.Block() == u.in.Block() && instrIndex(d) < instrIndex(u.in) || d.Block().Dominates(u.in.Block()) && d.Block() != u.in.Block()) {
+					return true
+				}
+			}
+			return false
+		}
+		if t := feasiblePathTo(p, u.in, isLock, isTarget, pruned); t != nil {
+			what := "the unlock at " + p.instrPos(t)
+			if _, isRD := t.(*ssa.RunDefers); isRD {
+				what = "the deferred unlock run at the return at " + p.instrPos(t)
+			}
+			out = append(out, fmt.Sprintf("%s can be reached after the unlock of %s at %s without the mutex being locked again in between: unlocking an unlocked mutex is a fatal error that stops the process", what, u.id, p.instrPos(u.in)))
+		}
+	}
+	return out
+}
+
+// feasiblePathTo: a CFG path from just after `from` to an instruction satisfying target that passes no instruction
+// satisfying blocker and whose branch conditions do not contradict each other (or the facts that hold at from).
+func feasiblePathTo(p *Prog, from ssa.Instruction, blocker, target func(ssa.Instruction) bool, pruned map[[2]*ssa.BasicBlock]bool) ssa.Instruction {
+	start := from.Block()
+	facts := map[string]bool{}
+	for _, f := range dominatingFacts(start) {
+		f = normFact(f)
+		if k, ct, ok := p.canonFact(f.cond, f.truth); ok {
+			facts[k] = ct
+		}
+	}
+	budget := 4000
+	var found ssa.Instruction
+	var walk func(b *ssa.BasicBlock, from int, facts map[string]bool, onPath map[*ssa.BasicBlock]int) bool
+	walk = func(b *ssa.BasicBlock, from int, facts map[string]bool, onPath map[*ssa.BasicBlock]int) bool {
+		budget--
+		if budget < 0 {
+			return false // give up silently: this rule only reports paths it has found
+		}
+		for i := from; i < len(b.Instrs); i++ {
+			if blocker(b.Instrs[i]) {
+				return false
+			}
+			if target(b.Instrs[i]) {
+				found = b.Instrs[i]
+				return true
+			}
+		}
+		c := ifCond(b)
+		for si, sc := range b.Succs {
+			if onPath[sc] >= 2 || pruned[[2]*ssa.BasicBlock{b, sc}] {
+				continue // (an edge the lock analysis proved infeasible: the !ok branch of an assertion that cannot fail)
+			}
+			nf := facts
+			if c != nil && b.Succs[0] != b.Succs[1] {
+				f := normFact(condFact{c, si == 0})
+				if k, ct, ok := p.canonFact(f.cond, f.truth); ok {
+					if old, has := facts[k]; has && old != ct {
+						continue
+					}
+					nf = map[string]bool{}
+					for kk, vv := range facts {
+						nf[kk] = vv
+					}
+					nf[k] = ct
+				}
+			}
+			if sc.Dominates(b) {
+				nf = map[string]bool{} // back edge: loop-carried values and re-evaluated conditions may differ in the next iteration
+			}
+			onPath[sc]++
+			if walk(sc, 0, nf, onPath) {
+				return true
+			}
+			onPath[sc]--
+		}
+		return false
+	}
+	if walk(start, instrIndex(from)+1, facts, map[*ssa.BasicBlock]int{start: 1}) {
+		return found
+	}
+	return nil
 }
 
 // fieldGone: fk = "pkg.Type.field"; reports whether the type exists and whether it lacks a field of that (canonical) name.
